@@ -1142,6 +1142,41 @@ ref("word-start-quote-match", ["C20", "C05"], "quote tracking of the word-start 
             }
         }"""))
 
+mut("C17", "unalias-dash-a", "R17-3|builtins::unalias::run|only-remove-alias", "unalias -a clears the table",
+    ("src/builtins/unalias.rs", """    let input = &tokens[1].1;
+""", """    let input = &tokens[1].1;
+    if input == "-a" {
+        sh.aliases.clear();
+        return cr;
+    }
+"""))
+mut("C20", "for-cd-anchored", "R20-7|completers::for_cd|prefix-test", "for_cd also constrains the rest of the line",
+    ("src/completers/mod.rs", 'libs::re::re_contains(line, r"^ *cd +")', 'libs::re::re_contains(line, r"^ *cd +[^ ]*$")'))
+ref("for-cd-blank-class", ["C20"], "for_cd written with a blank class",
+    ("src/completers/mod.rs", 'libs::re::re_contains(line, r"^ *cd +")', 'libs::re::re_contains(line, r"^[ ]*cd[ \\t]+")'))
+mut("C18", "cmd-stored-after-bangbang", "R18-2|main|typed-line", "sh.cmd is assigned after the !! expansion rewrote the line",
+    (M, """                let line = shell::trim_multiline_prompts(&line);
+                if line.trim() == "" {
+                    jobc::try_wait_bg_jobs(&mut sh, true, sig_handler_enabled);
+                    continue;
+                }
+                sh.cmd = line.clone();
+
+                let tsb = ctime::DateTime::now().unix_timestamp();
+                let mut line = line.clone();
+""", """                let mut line = shell::trim_multiline_prompts(&line);
+                if line.trim() == "" {
+                    jobc::try_wait_bg_jobs(&mut sh, true, sig_handler_enabled);
+                    continue;
+                }
+
+                let tsb = ctime::DateTime::now().unix_timestamp();
+"""),
+    (M, """                tools::extend_bangbang(&sh, &mut line);
+""", """                tools::extend_bangbang(&sh, &mut line);
+                sh.cmd = line.clone();
+"""))
+
 # ------------------------------------------------------------------ more refactors
 ref("history-params-vec", ["C18"], "bind the INSERT parameters through a params! style slice",
     (H, "    match conn.execute(&sql, [line.trim(), info.as_str()]) {",
